@@ -68,4 +68,55 @@ theorem readLoop_acc (m : Mem) (addr : Nat) :
       · simp only [hm, if_false]
         exact ⟨total, Nat.le_refl _, by omega, h⟩
 
+theorem hasNull_bytes_iff (m : Mem) (a n : Nat) : hasNull (m.bytes a n) = true ↔ ∃ i, i < n ∧ m.byte (a + i) = 0 := by
+  simp [hasNull, Mem.bytes]
+
+theorem takeWhile_bytes (m : Mem) (a z t : Nat) (hz : z < t) (h0 : m.byte (a + z) = 0) (hnz : ∀ i, i < z → m.byte (a + i) ≠ 0) :
+    (m.bytes a t).takeWhile (· != 0) = m.bytes a z := by
+  have hsplit : m.bytes a t = m.bytes a z ++ m.bytes (a + z) (t - z) := by
+    rw [bytes_append]; congr 1; omega
+  rw [hsplit, List.takeWhile_append_of_pos]
+  · have ht : t - z = (t - z - 1) + 1 := by omega
+    rw [ht]
+    simp only [Mem.bytes, List.range_succ_eq_map, List.map_cons, Nat.add_zero, List.takeWhile_cons, h0]
+    simp
+  · intro x hx
+    simp only [Mem.bytes, List.mem_map, List.mem_range] at hx
+    obtain ⟨i, hi, rfl⟩ := hx
+    simpa using hnz i hi
+
+/-- under "a NUL at offset z, nothing before it, everything up to it readable" the loop of
+vmReadStr ends without EFAULT having read past z -/
+theorem readLoop_exact (m : Mem) (addr z : Nat) (hP : 0 < m.P) (h0 : m.byte (addr + z) = 0)
+    (hnz : ∀ i, i < z → m.byte (addr + i) ≠ 0) (hread : ∀ i, i ≤ z → m.readable (addr + i) = true) :
+    ∀ (fuel total rem next : Nat) (acc : List Nat), acc = m.bytes addr total → total ≤ z → z < total + rem →
+      0 < next → rem ≤ fuel →
+      ∃ t', z < t' ∧ readLoop m addr fuel total rem next acc = (false, m.bytes addr t') := by
+  intro fuel
+  induction fuel with
+  | zero => intro total rem next acc _ h1 h2 _ h4; omega
+  | succ fuel ih =>
+    intro total rem next acc h h1 h2 h3 h4
+    unfold readLoop
+    have hr : rem ≠ 0 := by omega
+    simp only [hr, if_false]
+    generalize hn : (if rem < next then rem else next) = nx
+    have hnx : nx ≤ rem ∧ 0 < nx := by rw [← hn]; split <;> omega
+    unfold vmRead
+    simp only [hread total h1, if_true]
+    have hc : acc ++ m.bytes (addr + total) nx = m.bytes addr (total + nx) := by rw [h]; exact bytes_append m addr total nx
+    by_cases hz : z < total + nx
+    · have hnull : hasNull (m.bytes (addr + total) nx) = true := by
+        rw [hasNull_bytes_iff]
+        refine ⟨z - total, by omega, ?_⟩
+        rw [show addr + total + (z - total) = addr + z by omega]; exact h0
+      simp only [hnull, if_true]
+      exact ⟨total + nx, hz, by rw [hc]⟩
+    · have hnull : ¬ hasNull (m.bytes (addr + total) nx) = true := by
+        rw [hasNull_bytes_iff]
+        rintro ⟨i, hi, hb⟩
+        exact hnz (total + i) (by omega) (by rw [← Nat.add_assoc]; exact hb)
+      simp only [hnull, if_false]
+      exact ih (total + nx) (rem - nx) m.P _ hc (by omega) (by omega) hP (by omega)
+
 end GoSandbox.Lemmas.GetString
